@@ -123,6 +123,8 @@ pub struct Epoch {
     pub argv: Vec<String>,
     /// CPUs the epoch process "may run on" (what `available_parallelism()` reports); 0 = the real number
     pub cpus: u32,
+    /// whether the epoch process's stderr is a terminal (a pty) rather than /dev/null
+    pub tty: bool,
     pub jobs: Vec<Job>,
     /// consumed one per scheduling event (point hit or job end); when the
     /// list is exhausted the answer is `Cont`
@@ -145,6 +147,7 @@ impl Epoch {
             "env": self.env.iter().map(|(k, v)| json!([k, v])).collect::<Vec<_>>(),
             "argv": self.argv,
             "cpus": self.cpus,
+            "tty": self.tty,
             "jobs": self.jobs.iter().map(|j| json!({"prog": j.prog, "thread": j.thread})).collect::<Vec<_>>(),
             "decisions": self.decisions.iter().map(|d| d.to_json()).collect::<Vec<_>>(),
         })
@@ -169,6 +172,7 @@ impl Epoch {
                 })
                 .unwrap_or_default(),
             cpus: v["cpus"].as_u64().unwrap_or(0) as u32,
+            tty: v["tty"].as_bool().unwrap_or(false),
             argv: v["argv"].as_array().map(|a| a.iter().filter_map(|x| x.as_str().map(|s| s.to_string())).collect()).unwrap_or_default(),
             jobs: v["jobs"]
                 .as_array()
@@ -221,6 +225,7 @@ impl Plan {
                 env: vec![],
                 argv: vec![],
                 cpus: 1,
+                tty: false,
                 jobs: vec![Job { prog: 0, thread: 0 }],
                 decisions: vec![],
             }],
